@@ -261,12 +261,103 @@ theorem getAbsPath_some_iff (fs : FS) (src : Option Bytes) (rel a r : Bytes) :
     getAbsPath fs src rel = .ok (some (a, r)) ↔
       ∃ ac, absCanon fs src rel = some ac ∧ normalizePath ac = some a ∧
         normalizePath (fixupRelPath src ac rel) = some r := by
-  unfold getAbsPath
-  cases h : absCanon fs src rel with
+  unfold getAbsPath absCanon
+  cases h : absGuess fs src rel with
   | none => simp
-  | some ac =>
-    simp only [Option.some.injEq, exists_eq_left']
-    cases h1 : normalizePath ac <;> cases h2 : normalizePath (fixupRelPath src ac rel) <;> simp
+  | some abs0 =>
+    simp only [Option.bind_some]
+    cases hc : canonOrNorm fs abs0 with
+    | none => simp
+    | some ac =>
+      simp only [Option.some.injEq, exists_eq_left']
+      cases h1 : normalizePath ac <;> cases h2 : normalizePath (fixupRelPath src ac rel) <;> simp
+
+/-! ### the canonicalised-or-normalised absolute path is clean -/
+
+theorem walk_real (fs : FS) (segs : List Bytes) (hs : ∀ s ∈ segs, 47 ∉ s) (cur : List Bytes)
+    (k : Kind) (hcur : ∀ n ∈ cur, RealName n) (r : List Bytes × Kind)
+    (h : walk fs cur k segs = some r) : ∀ n ∈ r.1, RealName n := by
+  induction segs generalizing cur k with
+  | nil => simp [walk] at h; subst h; exact hcur
+  | cons seg segs ih =>
+    have hs' : ∀ s ∈ segs, 47 ∉ s := fun s h' => hs s (List.mem_cons_of_mem _ h')
+    cases k with
+    | file => simp [walk] at h
+    | dir =>
+      simp only [walk] at h
+      split at h
+      · exact ih hs' cur _ hcur h
+      · rename_i hskip
+        split at h
+        · exact ih hs' _ _ (fun n hn => hcur n (List.dropLast_subset _ hn)) h
+        · rename_i hdd
+          cases hk : fs.kind (cur ++ [seg]) with
+          | none => simp [hk] at h
+          | some k' =>
+            simp only [hk] at h
+            refine ih hs' _ _ ?_ h
+            intro n hn
+            rcases List.mem_append.1 hn with hn | hn
+            · exact hcur n hn
+            · simp at hn; subst hn
+              simp only [Bool.or_eq_true, decide_eq_true_eq, not_or] at hskip
+              exact ⟨hskip.1, hs n (by simp), hskip.2, hdd⟩
+
+theorem realpath_clean_of_abs {fs : FS} {p c : Bytes} (hp : hasRoot p = true)
+    (h : fs.realpath p = some c) : ∃ names, (∀ n ∈ names, RealName n) ∧ c = render ⟨true, names⟩ := by
+  unfold FS.realpath FS.resolve at h
+  have hne : p ≠ [] := by intro e; subst e; simp [hasRoot] at hp
+  simp only [hne, if_false, hp, if_true] at h
+  cases hw : walk fs [] Kind.dir (split p) with
+  | none => simp [hw] at h
+  | some r =>
+    simp [hw] at h
+    exact ⟨r.1, walk_real fs _ (fun s hs => mem_split_noSlash hs) [] _ (by simp) r hw, h.symm⟩
+
+theorem hasRoot_push {a : Bytes} (ha : hasRoot a = true) (b : Bytes) : hasRoot (push a b) = true := by
+  unfold push
+  split
+  · assumption
+  · have hne : a ≠ [] := by intro e; subst e; simp [hasRoot] at ha
+    rw [if_neg hne]
+    cases a with
+    | nil => exact absurd rfl hne
+    | cons x t => split <;> simpa [hasRoot] using ha
+
+theorem absGuess_hasRoot {fs : FS} {s rel a : Bytes} (hs : hasRoot s = true)
+    (h : absGuess fs (some s) rel = some a) : hasRoot a = true := by
+  unfold absGuess at h
+  split at h
+  · rename_i hr; cases h; simpa [isRelative] using hr
+  · simp only [guessAbsPath] at h
+    split at h
+    · cases h; exact hasRoot_push hs _
+    · split at h
+      · simp only [Option.map_eq_some_iff] at h
+        obtain ⟨t, _, e⟩ := h
+        subst e; exact hasRoot_push hs _
+      · cases h; exact hasRoot_push hs _
+
+/-- with an absolute source dir, the path after "canonicalize or normalize" is a clean absolute
+path, hence already its own normal form -/
+theorem absCanon_clean {fs : FS} {s rel ac : Bytes} (hs : hasRoot s = true)
+    (h : absCanon fs (some s) rel = some ac) :
+    ∃ np : NPath, (∀ n ∈ np.names, RealName n) ∧ ac = render np := by
+  unfold absCanon at h
+  cases hg : absGuess fs (some s) rel with
+  | none => simp [hg] at h
+  | some abs0 =>
+    simp only [hg, Option.bind_some, canonOrNorm] at h
+    have hroot := absGuess_hasRoot hs hg
+    cases hr : fs.realpath abs0 with
+    | some c =>
+      simp only [hr] at h; cases h
+      obtain ⟨names, hreal, e⟩ := realpath_clean_of_abs hroot hr
+      exact ⟨⟨true, names⟩, hreal, e⟩
+    | none =>
+      simp only [hr] at h
+      obtain ⟨np, e, hreal, _⟩ := normalizePath_shape h
+      exact ⟨np, hreal, e⟩
 
 theorem resolveKey_some {cfg : Cfg} {fs : FS} {key a r : Bytes}
     (h : resolveKey cfg fs key = .ok (some (a, r))) :
@@ -335,6 +426,30 @@ theorem under_clean_source {sn : List Bytes} (hsn : ∀ n ∈ sn, RealName n) {a
   rw [hst] at ha
   simpa using ha.symm
 
+
+/-- the whole "relative under the source dir" argument -/
+theorem relative_under_source {cfg : Cfg} {fs : FS} {key : Bytes} {sn : List Bytes} {abs rel : Bytes}
+    (hsn : ∀ n ∈ sn, RealName n) (hS : cfg.sourceDir = some (render ⟨true, sn⟩))
+    (h : resolveKey cfg fs key = .ok (some (abs, rel)))
+    (hunder : startsWith abs (render ⟨true, sn⟩) = true) :
+    ∃ names, (∀ n ∈ names, RealName n) ∧ rel = render ⟨false, names⟩ ∧
+      abs = render ⟨true, sn ++ names⟩ ∧ stripPrefix abs (render ⟨true, sn⟩) = some rel := by
+  obtain ⟨ac, h1, h2, h3⟩ := (getAbsPath_some_iff _ _ _ _ _).1 (resolveKey_some h)
+  rw [hS] at h1
+  obtain ⟨np, hreal, e⟩ := absCanon_clean (hasRoot_render_true sn) h1
+  -- the path is clean, so normalising it changes nothing: abs = ac
+  have hid : abs = ac := by
+    rw [e, normalizePath_render hreal] at h2
+    rw [e]; exact (Option.some.inj h2).symm
+  subst hid
+  have hst : (stripPrefix abs (render ⟨true, sn⟩)).isSome = true := by
+    rw [stripPrefix_isSome_iff]; exact hunder
+  obtain ⟨t, ht⟩ := Option.isSome_iff_exists.1 hst
+  simp only [hS, fixupRelPath, ht] at h3
+  obtain ⟨names, hreal', e1, e2⟩ := under_clean_source hsn ht h2 h3
+  refine ⟨names, hreal', e1, e2, ?_⟩
+  rw [e1, e2, ← join_eq_render]
+  exact stripPrefix_render hsn hreal'
 
 /-! ### uniqueness of reported paths (C12) -/
 
@@ -478,7 +593,7 @@ theorem rewriteKey_canonical_key {cfg : Cfg} {fs : FS} {sn names : List Bytes} {
       = some (render ⟨true, sn ++ names⟩) := by
     rcases hP with hP | hP
     · simp [keyPath, hP, hM, removePrefix, applyMapping, hb, absCanon, absGuess, isRelative,
-        hasRoot_render_true, canonIfExists, hreal]
+        hasRoot_render_true, canonOrNorm, hreal]
     · have hrelj : isRelative (join names) = true := by
         cases names with
         | nil => exact absurd rfl hne
@@ -486,7 +601,7 @@ theorem rewriteKey_canonical_key {cfg : Cfg} {fs : FS} {sn names : List Bytes} {
           unfold isRelative hasRoot
           simpa using head_join_ne_slash (hn1 x (by simp)).1 (hn1 x (by simp)).2.1
       simp [keyPath, hP, hM, removePrefix, applyMapping, hb, hS, hstrip, absCanon, absGuess,
-        hrelj, guessAbsPath, push_render hsn1 hn1 hne, hfile, canonIfExists, hreal]
+        hrelj, guessAbsPath, push_render hsn1 hn1 hne, hfile, canonOrNorm, hreal]
   obtain ⟨ac, hac', _, hnr⟩ := (getAbsPath_some_iff _ _ _ _ _).1 hg
   rw [hac] at hac'; cases hac'
   simp only [hS, fixupRelPath, hstrip] at hnr
